@@ -595,7 +595,7 @@ fn sampling_part(res: &mut PartResult) {
 fn seq_part(ctx: &Ctx, res: &mut PartResult, depth: usize, aggressive: bool, as_dist: bool) {
     res.engine = "E3 all update/flush sequences up to the depth through the real handles + State::flush + PayloadWriter vs. an exact reference model".into();
     let mut states = vcore::vseq::States::new();
-    const OPS: [&str; 8] = ["flush", "ci.increment(3)", "ca.absolute(next)", "gau.set(2.5)", "gau.increment(1)", "gau.decrement(0.25)", "his.record(k)", "ci.increment(0)"];
+    const OPS: [&str; 9] = ["flush", "ci.increment(3)", "ca.absolute(next)", "gau.set(2.5)", "gau.increment(1)", "gau.decrement(0.25)", "his.record(k)", "ci.increment(0)", "his.record x 70 (more than one bucket block)"];
     let mut run = |seq: &[usize]| -> Option<usize> {
         let (mut drv, rec) = Driver::new(aggressive, false, 16, as_dist, vec![], None, 8192, false);
         let ci = rec.register_counter(&Key::from_name("ci"), &META);
@@ -644,6 +644,13 @@ fn seq_part(ctx: &Ctx, res: &mut PartResult, depth: usize, aggressive: bool, as_
                     next_rec += 1.0;
                 }
                 7 => ci.increment(0),
+                8 => {
+                    for _ in 0..70 {
+                        h.record(next_rec);
+                        hv.push(next_rec);
+                        next_rec += 1.0;
+                    }
+                }
                 _ => {
                     res.transitions += 1;
                     let payloads = drv.flush_once();
@@ -695,6 +702,21 @@ fn seq_part(ctx: &Ctx, res: &mut PartResult, depth: usize, aggressive: bool, as_
                             }
                         }
                     }
+                    // a histogram is flushed one bucket block (64 values) per message, newest block first: merge them; within
+                    // one message the values keep their recording order
+                    let his_msgs: Vec<Vec<String>> = got.iter().filter(|x| x.1 == 'd' || x.1 == 'h').map(|x| x.2.clone()).collect();
+                    if his_msgs.len() > 1 {
+                        let ty = if as_dist { 'd' } else { 'h' };
+                        let ordered_inside = his_msgs.iter().all(|m| m.windows(2).all(|w| w[0].parse::<f64>().unwrap_or(f64::NAN) < w[1].parse::<f64>().unwrap_or(f64::NAN)));
+                        let mut all: Vec<f64> = his_msgs.iter().flatten().map(|v| v.parse::<f64>().unwrap_or(f64::NAN)).collect();
+                        all.sort_by(|a, b| a.partial_cmp(b).unwrap_or(std::cmp::Ordering::Equal));
+                        got.retain(|x| !(x.1 == 'd' || x.1 == 'h'));
+                        let mut merged: Vec<String> = all.iter().map(|v| format!("{:?}", v)).collect();
+                        if !ordered_inside {
+                            merged.push("values-out-of-recording-order-inside-one-message".into());
+                        }
+                        got.push(("his".into(), ty, merged));
+                    }
                     got.sort();
                     want.sort();
                     states.add(&got);
@@ -720,7 +742,7 @@ fn seq_part(ctx: &Ctx, res: &mut PartResult, depth: usize, aggressive: bool, as_
     res.executions = n;
     if !complete {
         res.exhaustive = false;
-        res.cap_hit = Some("wall budget".into());
+        res.cap_hit = Some("budget (cpu time of the part)".into());
     }
     res.states = states.len();
     res.distinct_outcomes = states.len();
